@@ -52,7 +52,7 @@ Proof.
   - clear - HF2 Gi Hord. unfold gids in Gi.
     induction HF2 as [|kv kv' l l' Hkv _ IH]; constructor.
     + inversion Gi; subst.
-      exact (matrix_gm0 ord Hord nokey _ false H1 (d18_sub_never ord false _) _ _ Hkv).
+      exact (entries_matrix_gm ord _ _ false Hord H1 (d18_sub_never ord false _) Hkv).
     + inversion Gi; subst. apply IH. assumption.
   - apply C03.npd_pure.
 Qed.
